@@ -8,7 +8,9 @@ RULE = ("random record descriptions (depth<=4, fan-out<=5, OCCURS 1-4, OCCURS DE
         "with the chosen counter values; EVERY navigation path (names, first/second/last index of every table, one refused index) through EBCDIC().nav "
         "and, for DISPLAY-only trees, TextUnpacker().nav; the same trees with packed and binary items in their native-text form too (schema made by "
         "JSONSchemaMaker(TextUnpacker), every width counted in characters), each right after its EBCDIC form; the emitted schema itself is compared with the model's. Separate streams hit the three known-bad "
-        "shapes. Non-trivial = tree has OCCURS, REDEFINES or ODO (branch > 1); distinct = distinct case lines.")
+        "shapes; stream redefines-chain: record descriptions in which a REDEFINES names an item that is itself a redefiner (two or three links, elementary and group "
+        "links, a second redefiner of the original or of a link in between, at the top level, inside a nested group and inside one occurrence of a repeated group, "
+        "with and without items after the union). Non-trivial = tree has OCCURS, REDEFINES or ODO (branch > 1); distinct = distinct case lines.")
 TRIVIAL_BRANCHES = [1]
 ASSUMPTIONS = ["widths of elementary items are given to the judge as the widths C04's specification lists (the generator avoids C04's known-bad configurations)",
                "the loaded Schema mirrors the JSON document (C15)",
@@ -39,12 +41,120 @@ def inputs(ctx):
     # the same data name in two different groups (qualified names in COBOL); anchors are one flat namespace
     for i in range(60 if ctx.tier == "quick" else 900):
         yield "dup-names", dict(seed=rng.randrange(1 << 30), text=False, opts=dict(dup_names=True, allow_odo=False, allow_filler=False))
+    # a REDEFINES whose target is itself a redefiner (COBOL 2002; COBOL 85 demands the original name): finding K-redefines-of-redefiner
+    for k in range(len(CHAIN_FIXED)):
+        yield "redefines-chain", dict(seed=0, text=(k % 2 == 1), chain=True, fixed=k, opts={})
+    for i in range(41 if ctx.tier == "quick" else 700):
+        yield "redefines-chain", dict(seed=rng.randrange(1 << 30), text=(i % 3 == 1), chain=True, opts={})
+
+
+def _fixed(spec):
+    """a record description written as nested tuples (id, size | [kids], redefined id or None)"""
+    def go(t):
+        i, body, red = t
+        if isinstance(body, list):
+            return dict(id=i, kind="group", occ=None, redef=red, filler=False, kids=[go(k) for k in body])
+        return dict(id=i, kind="elem", pic=f"X({body})", usage="DISPLAY", size=body, occ=None, redef=red, filler=False, kids=[])
+    return go(spec)
+
+
+# the witness of K-redefines-of-redefiner (01 REC. 05 A X(4). 05 B REDEFINES A X(4). 05 C REDEFINES B X(2). 05 D X(1).) and the shapes of
+# Props/C01d.v: three links; the chain in a nested group with a GROUP as the original item; a group as the middle link; nothing after the union
+CHAIN_FIXED = [
+    (1, [(2, 4, None), (3, 4, 2), (4, 2, 3), (5, 1, None)], None),
+    (1, [(2, 4, None), (3, 4, 2), (4, 3, 3), (5, 2, 4), (6, 1, None)], None),
+    (1, [(2, 1, None), (3, [(4, [(5, 2, None), (6, 2, None)], None), (7, 4, 4), (8, 2, 7), (9, 1, None)], None), (10, 1, None)], None),
+    (1, [(2, 4, None), (3, [(4, 2, None), (5, 2, None)], 2), (6, 3, 3), (7, 1, None)], None),
+    (1, [(2, 4, None), (3, 4, 2), (4, 2, 3)], None),
+]
+
+
+def chain_tree(rng):
+    """A record description holding at least one chained redefinition: A, L1 REDEFINES A, L2 REDEFINES L1 [, L3 REDEFINES L2], every link no
+    longer than its target, optionally with a second redefiner of A or of a link, plain items before and after; the union sits at the top
+    level, in a nested group, or in a plain group inside one occurrence of a repeated group.  No OCCURS on a union member, no REDEFINES
+    directly inside a repeated group, no OCCURS DEPENDING ON, no FILLER, every data name used once (the other findings' shapes stay out)."""
+    nid = [0]
+
+    def new_id():
+        nid[0] += 1
+        return nid[0]
+
+    def elem(size=None, redef=None, occ=None):
+        if size is None:
+            pic, usage, size = rng.choice(elem_choices(True))
+        else:
+            pic, usage = (f"X({size})", "DISPLAY") if rng.random() < 0.7 or size > 9 else ("9" * size, "DISPLAY")
+        return dict(id=new_id(), kind="elem", pic=pic, usage=usage, size=size, occ=occ, redef=redef, filler=False, kids=[])
+
+    def group(kids, redef=None, occ=None, i=None):
+        return dict(id=i if i is not None else new_id(), kind="group", occ=occ, redef=redef, filler=False, kids=kids)
+
+    def member(room, redef):
+        """an item of extent 1..room (exactly room with probability 1/3), elementary or a group of elementary items"""
+        ext = room if rng.random() < 0.34 else rng.randint(1, room)
+        if ext >= 2 and rng.random() < 0.35:
+            gid, kids, left = new_id(), [], ext
+            while left > 0:
+                k = left if len(kids) == 2 else rng.randint(1, left)
+                kids.append(elem(k))
+                left -= k
+            return group(kids, redef=redef, i=gid), ext
+        return elem(ext, redef=redef), ext
+
+    def union():
+        """[base, link1 REDEFINES base, link2 REDEFINES link1, ...] plus extra redefiners, each after its target"""
+        base, ext = member(rng.choice((2, 3, 4, 4, 6, 8)), None)
+        seq, exts, prev = [base], {base["id"]: ext}, base
+        for _ in range(rng.choice((2, 2, 2, 3))):
+            link, e = member(exts[prev["id"]], prev["id"])
+            seq.append(link)
+            exts[link["id"]] = e
+            prev = link
+        for _ in range(rng.choice((0, 0, 1, 2))):
+            pos = rng.randint(2, len(seq))
+            target = rng.choice(seq[:pos - 1] if rng.random() < 0.5 else seq[:1])
+            extra, e = member(exts[target["id"]], target["id"])
+            exts[extra["id"]] = e
+            seq.insert(pos, extra)
+        return seq
+
+    def plain(n):
+        out = []
+        for _ in range(n):
+            if rng.random() < 0.2:
+                out.append(group([elem() for _ in range(rng.randint(1, 2))], occ=("times", rng.randint(1, 3)) if rng.random() < 0.4 else None))
+            else:
+                out.append(elem(occ=("times", rng.randint(1, 3)) if rng.random() < 0.15 else None))
+        return out
+
+    def kids_with_union():
+        after = 0 if rng.random() < 0.15 else rng.randint(1, 2)
+        return plain(rng.randint(0, 2)) + union() + plain(after)
+
+    root = new_id()
+    where = rng.random()
+    if where < 0.5:
+        kids = kids_with_union()
+    elif where < 0.8:
+        kids = plain(rng.randint(0, 2)) + [group(kids_with_union(), i=new_id())] + plain(rng.randint(0, 2))
+    else:
+        gid, hid = new_id(), new_id()
+        inner = group(kids_with_union(), i=hid)
+        kids = plain(rng.randint(0, 1)) + [group(plain(rng.randint(0, 1)) + [inner] + plain(rng.randint(0, 1)), occ=("times", rng.randint(1, 3)), i=gid)] \
+            + plain(rng.randint(0, 2))
+    if rng.random() < 0.2:
+        kids = kids + union() + plain(rng.randint(0, 1))      # a second chain among the same siblings
+    return group(kids, i=root)
 
 
 def build_case(c):
     import random
     rng = random.Random(c["seed"])
-    tree = gen_tree(rng, **c["opts"])
+    if c.get("fixed") is not None:
+        tree = _fixed(CHAIN_FIXED[c["fixed"]])
+    else:
+        tree = chain_tree(rng) if c.get("chain") else gen_tree(rng, **c["opts"])
     env = choose_counts(tree, rng)
     total, counters, paths = layout(tree, env)
     if len(paths) > 160:
